@@ -93,6 +93,9 @@ def shard(seed, bases, tier):
         evs = [res.get(c.id) for c in cs]
         if any(e is None for e in evs):
             continue
+        if any(rdh.outcap_hit(e) for e in evs):
+            sh.count('abandoned_at_output_cap')
+            continue
         if any(rdh.budget_hit(e) for e in evs):
             sh.violation('C07-no-return:' + tag, 'call did not return within the step budget', a)
             continue
@@ -255,6 +258,77 @@ def many_failures_part(ctx):
     shutil.rmtree(root, ignore_errors=True)
 
 
+def write_fault_part(ctx, rnd):
+    """Extraction under write faults: RLIMIT_FSIZE = L with SIGXFSZ ignored makes write(2) fail with EFBIG once a file would
+    grow past L bytes.  The iff of C07 is judged on what extraction produced, i.e. the file on disk: a member reported
+    'Melted' (and an exit status of 0) demands that its file holds exactly the recorded bytes.  L is placed so that the
+    failing write falls in the first, a middle, and the LAST stdio block of a member (the last block is only flushed by
+    fclose), and below/above whole files."""
+    import resource, signal, subprocess
+    root = os.path.join(build.scratch_root(), 'c07wf')
+    cli.mkdir_for_nobody(root)
+    sizes = [10000, 4096, 4097, 70000, 300000, 12288, 1] if ctx.tier == 'quick' else [10000, 4096, 4097, 8192, 70000, 300000, 600000, 12288, 1, 100]
+    jobs = []
+    n = 0
+    for sz in sizes:
+        limits = sorted(set(x for x in (0, 1, sz // 2, sz - 1, sz - 100, (sz // 4096) * 4096, (sz // 4096) * 4096 - 1, (sz // 4096) * 4096 + 1,
+                                          sz - sz % 4096 + (sz % 4096) // 2, 4096, 262144, 262145, sz, sz + 1) if 0 <= x <= sz + 1))
+        if ctx.tier == 'quick':
+            limits = [l for l in limits if l >= sz - 4200 or l in (0, 4096)] if sz > 20000 else limits
+        for L in limits:
+            for meth in (('-lh0-',) if sz > 20000 else ('-lh0-', '-lh5-')):
+                ms = [arc.file_member(rnd, '-lh0-', b'small', size=min(7, L), level=1), arc.file_member(rnd, meth, b'big.bin', size=sz, level=n % 3),
+                      arc.file_member(rnd, '-lh0-', b'tail', size=min(3, L), level=2)]
+                for mode in ('xf', 'eq') if n % 2 else ('xf',):
+                    n += 1
+                    jobs.append((n, L, mode, ms, arc.archive(ms)))
+
+    def one(j):
+        n, L, mode, ms, a = j
+        d = os.path.join(root, 'w%d' % n)
+        cli.mkdir_for_nobody(d)
+        open(os.path.join(d, 'a.lzh'), 'wb').write(a)
+        os.chmod(os.path.join(d, 'a.lzh'), 0o644)
+
+        def pre():
+            signal.signal(signal.SIGXFSZ, signal.SIG_IGN)
+            resource.setrlimit(resource.RLIMIT_FSIZE, (L, L))
+        r = subprocess.run(cli.NOBODY + [_CLI, mode, 'a.lzh'], cwd=d, capture_output=True, preexec_fn=pre, timeout=120,
+                           env={'PATH': '/usr/bin:/bin', 'TZ': 'UTC', 'LC_ALL': 'C'})
+        disk = {}
+        for x in ms:
+            p = os.path.join(d, x.name.decode())
+            disk[x.name] = open(p, 'rb').read() if os.path.isfile(p) else None
+        shutil.rmtree(d, ignore_errors=True)
+        return j, r.returncode, r.stdout, disk
+    with ThreadPoolExecutor(max_workers=16) as ex:
+        for (n, L, mode, ms, a), rc, so, disk in ex.map(one, jobs):
+            ctx.count('write_fault_runs')
+            ctx.cov['evaluations'] += 1
+            ctx.hist('write_fault_limit_vs_member', 'limit>=size' if L >= len(ms[1].plain) else 'in-last-4096-block' if L >= len(ms[1].plain) - len(ms[1].plain) % 4096
+                     and len(ms[1].plain) % 4096 else 'earlier-block')
+            if rc < 0 or rc > 1:
+                ctx.violation('C07-cli-abnormal-exit:write-fault', "'lha %s' under a file size limit of %d exited with %d" % (mode, L, rc), a)
+                continue
+            lines = [l for l in so.replace(b'\r', b'\n').split(b'\n') if b'\t- ' in l]
+            anybad = False
+            for x in ms:
+                good = disk[x.name] == x.plain
+                anybad |= not good
+                if not good:
+                    ctx.count('write_fault_members_incomplete_on_disk')
+                final = [l for l in lines if l.startswith(x.name + b'\t- ') and (b'Melted' in l or b'Failure' in l)]
+                if final and b'Melted' in final[-1] and not good:
+                    ctx.violation('C07-cli-line:x:false-good:write-fault', "'lha %s' under a file size limit of %d bytes printed 'Melted' for %s (%d bytes recorded) "
+                                  'but the file on disk holds %s bytes' % (mode, L, x.name.decode(), len(x.plain), 'no' if disk[x.name] is None else len(disk[x.name])), a)
+            if anybad and rc == 0:
+                ctx.violation('C07-cli-exit-status:x:write-fault', "'lha %s' under a file size limit of %d bytes exited 0 although a member's file is incomplete on disk"
+                              % (mode, L), a)
+            if not anybad and rc != 0:
+                ctx.violation('C07-cli-exit-status-valid:x:write-fault', "'lha %s' exited %d although every file was written completely (limit %d)" % (mode, rc, L), a)
+    shutil.rmtree(root, ignore_errors=True)
+
+
 def burst_part(ctx, exe_enum):
     """Exhaustive (thorough) / sampled (quick) bursts of 1..16 bits on a 6-byte stored member, in-process."""
     x = arc.Member(H.simple_member(b'burst.bin', b'\x13\x37\xc0\xde\x00\xff', level=2), b'\x13\x37\xc0\xde\x00\xff', b'\x13\x37\xc0\xde\x00\xff')
@@ -296,10 +370,12 @@ def run(ctx):
     core.run_shards(ctx, shard, args)
     cli_part(ctx, rnd, bases[::3] if ctx.tier == 'quick' else bases)
     many_failures_part(ctx)
+    write_fault_part(ctx, rnd)
     burst_part(ctx, enum)
     ctx.cov['rule'] = ('archive variants (valid; recorded length n+-1/0/2^32-1; every single-bit flip of the recorded CRC; bit flips in member '
                        'data - every byte for small stored members; every truncation of small archives) over members of all 14 methods; three '
-                       'independent readers (read / check / extract) + CLI t and x; distinct by archive bytes; non-trivial = a non-valid variant '
+                       'independent readers (read / check / extract) + CLI t and x; extraction under write faults (file size limit placed in the '
+                       'first, a middle and the last stdio block of a member), judged on the bytes on disk; distinct by archive bytes; non-trivial = a non-valid variant '
                        'with at least one returned member')
     ctx.assumptions.append('MacBinary members excluded (their delivered bytes differ from the CRC\'d stream by design)')
 
